@@ -43,6 +43,10 @@ CHECKS = {
             "bounded-exhaustive execution of the six scalers on bare LPs (bit-exact ldexp oracle) and exhaustive short histories through SoPlex under scaler x persistent scaling x simplifier with bit-for-bit accessor comparison, byte-for-byte file comparison and exact re-optimisation",
             "A: every stride-th canonical LP of a family whose entries span 2^-20..2^19, each of the six scalers applied to a bare SPxLPBase: every scaled entry, bound, side and objective coefficient must equal ldexp(original, stored integer exponents) bit for bit, infinite bounds must stay infinite, all *Unscaled getters and unscaleLP() must reproduce the original bit for bit. B: LP x SCALER(7) x PERSISTENTSCALING(2) x simplifier(2): after optimize() every user-level accessor equals the reference model bit for bit, LP and MPS files are byte-identical to those of a never-scaled object, solution/ray/Farkas pass the exact certificate against the unscaled model; then every reduced-alphabet modification (thorough: a second one after an intermediate solve) with the same accessor / file / exact re-optimisation checks. C: 24-step cycle optimize / SCALER off / optimize / SCALER back with a bound change each step, crossing the stop-re-scaling threshold.",
             "Trusted: memcmp on doubles, the dense reference model, the exact oracle."),
+    "C17": ("model_checking", "DESIGN.md section 3 C17",
+            "bounded-exhaustive twin solves (two fresh objects with different heap history, and a re-solve after clearBasis) compared through a bit-exact digest; exhaustive copy/assign at every prefix point of short histories followed by every probe operation on either side",
+            "(a) every stride-th canonical LP of Q x every configuration with <=1 deviation in floating point (and a subset exactly): two fresh objects and the first object again after clearBasis must give identical status, iteration count, basis and bit-identical vectors (text digest with %a floats; thorough: under two heap fills). (b) at every prefix point of histories over 8 initial states (empty, loaded, solved with/without presolve, basis set, rational LP present, exactly solved, persistently scaled) x reduced modification alphabet: copy construction and assignment into a previously used object; the digest (all accessors, all 82 parameters, the tolerance object, basis, status, solution, rational LP) of copy and source must be equal, and 20 probe operations plus destruction applied to either side must leave the other side's digest unchanged.",
+            "Trusted: the digest is complete for what the statement lists. Crashes inside the copy phase are attributed to (copy kind, side, probe). Two genuine defect groups are in known_findings.json; the shared-Tolerances defect was fixed."),
 }
 
 NOT_YET = {}
